@@ -63,7 +63,8 @@ def node_xml(n, table):
     if name == 'hyperlink': return '<w:hyperlink w:anchor="bm"><w:r><w:t>link</w:t></w:r></w:hyperlink>'
     if name == 'smartTag': return '<w:smartTag w:element="x"/>'
     return '<w:bookmarkEnd w:id="901"/>'
-PPR = {0: '', 1: '<w:jc w:val="center"/>', 2: '<w:numPr><w:ilvl w:val="0"/><w:numId w:val="1"/></w:numPr>', 3: '<w:spacing w:after="120"/>', 4: '<w:keepNext/>'}
+PPR = {0: '', 1: '<w:jc w:val="center"/>', 2: '<w:numPr><w:ilvl w:val="0"/><w:numId w:val="1"/></w:numPr>', 3: '<w:spacing w:after="120"/>', 4: '<w:keepNext/>',
+       5: '<w:sectPr><w:pgSz w:w="15840" w:h="12240" w:orient="landscape"/></w:sectPr>'}      # 5: the paragraph ends a section (Word keeps the break in its pPr)
 def _canon_frag(x):
     if not x: return ''
     root = etree.fromstring('<w:pPr xmlns:w="%s">%s</w:pPr>' % (W, x))
